@@ -80,10 +80,28 @@ func NewTicker(d Duration) *Ticker {
 // Stop stops the ticker.
 func (t *Ticker) Stop() { t.stop() }
 
+// Reset restarts the ticker with a new period (delivering on the same channel).
+func (t *Ticker) Reset(d Duration) {
+	if d <= 0 {
+		panic("non-positive interval for Ticker.Reset")
+	}
+	t.stop()
+	t.stop = vmc.RearmTimerChan(t.C, d, true, "Ticker("+d.String()+")")
+}
+
+// Tick is NewTicker(d).C.
+func Tick(d Duration) *vmc.Chan[Time] {
+	if d <= 0 {
+		return nil
+	}
+	return NewTicker(d).C
+}
+
 // Timer replaces time.Timer.
 type Timer struct {
 	C    *vmc.Chan[Time]
 	stop func() bool
+	f    func()
 }
 
 // NewTimer creates a timer.
@@ -94,3 +112,19 @@ func NewTimer(d Duration) *Timer {
 
 // Stop stops the timer.
 func (t *Timer) Stop() bool { return t.stop() }
+
+// Reset re-arms the timer; reports whether it had been active.
+func (t *Timer) Reset(d Duration) bool {
+	was := t.stop()
+	if t.C != nil {
+		t.stop = vmc.RearmTimerChan(t.C, d, false, "Timer("+d.String()+")")
+	} else if t.f != nil {
+		t.stop = vmc.AfterFuncThread(d, "AfterFunc("+d.String()+")", t.f)
+	}
+	return was
+}
+
+// AfterFunc runs f in its own goroutine after d.
+func AfterFunc(d Duration, f func()) *Timer {
+	return &Timer{f: f, stop: vmc.AfterFuncThread(d, "AfterFunc("+d.String()+")", f)}
+}
